@@ -24,6 +24,14 @@ CHECKS = {
    technique="stateful (model-based) property testing: generated run()/push histories over generated programs against the model 'fresh run on everything pushed so far'",
    text="Operation sequences run() / push(tuple into any plain relation) over generated programs (serial and ascent_par!) are interpreted against the compiled program and against a model (the multiset of all pushed facts); after every run() the relations must equal the reference evaluator's result on the model, and consecutive runs must change nothing. Histories shrink as one proptest value.",
    note="Trusted base as for C01. Monotone re-run is only demanded for programs without negation / aggregation and without rules that copy a lattice value into a plain relation (a copy of an older value legitimately stays behind)."),
+ "C14": dict(engine="progfuzz", level="fault_enumeration", design="4/C14",
+   technique="fault injection at every deadline-check point (counter hook) of generated programs x generated inputs, with a soundness / resumability oracle from the reference evaluator",
+   text="For each generated program compiled with generate_run_timeout and each generated input, the deadline-check counter hook first counts the places at which the deadline can be observed, then every one of them is made the interruption point of a fresh run: run_timeout must return false in a sound partial state (subset of the reference fixed point, lattice values below the final ones) and a resuming run must reach exactly the fixed point without duplicate rows; repeated interruptions are sampled. Enumeration of crash points is exhaustive per case; programs and inputs are sampled.",
+   note="Trusted base as for C01, plus the hook: under the verif-hooks feature the start instant of run_timeout is shadowed by a clock whose elapsed() reports 'forever' at the armed check, so the repository's own __check_return_conditions! logic is what runs."),
+ "C20": dict(engine="progfuzz", level="exploration", design="4/C20",
+   technique="stateful property testing of generated multi-instance / multi-pool scenarios in fresh processes, against the reference evaluator",
+   text="Generated scenarios run 2-5 program instances (serial and parallel, same and different generated types) concurrently from a barrier, each constructed, run, pushed to and re-run in independently chosen rayon pools (global, custom sizes, nested), in separate processes that fix the process-wide shard count in pools of 1, 2 and 16 threads; every instance must compute exactly what the reference says it computes alone.",
+   note="Trusted base as for C01; interleavings are sampled, not enumerated."),
  "C03": dict(engine="progfuzz", level="exploration", design="4/C03",
    technique="property-based differential testing of generated monotone lattice programs against a reference least-fixed-point evaluator",
    text="Generated monotone lattice programs over every shipped lattice type are compiled and run on generated weighted graphs; each lattice relation must hold exactly one row per derivable key with the reference least-fixed-point value, and relations derived from lattice values must match."),
